@@ -47,6 +47,11 @@ pub fn raw_leaves(texts: &[&str]) -> Vec<Term> {
     v.push(Term::RawBuf(t.as_bytes().to_vec()));
     v.push(Term::RawBufS(t.as_bytes().to_vec()));
   }
+  // a buffer whose text has a line break in the middle (its stream is line-oriented like the others)
+  if let Some(t) = texts.iter().find(|t| t.len() > 1 && t[..t.len() - 1].contains('\n')) {
+    v.push(Term::RawBuf(t.as_bytes().to_vec()));
+    v.push(Term::RawBufS(t.as_bytes().to_vec()));
+  }
   v
 }
 
